@@ -7,9 +7,10 @@ for r in r1 r2 r3; do
   M=/tmp/mrepo_${H}_$r; rm -rf $M; mkdir $M; (cd /repo && git archive HEAD | tar -x -C $M; cp /repo/Cargo.lock $M/ 2>/dev/null)
   (cd $M && patch -p1 -s < $O/$r.diff) || { echo "$H $r: patch failed"; continue; }
   echo "== $H $r: $(cd $M && diff -rq /repo/contracts $M/contracts | head -2; diff -rq /repo/packages $M/packages | head -2)"
-  for i in 01 02 03 04 05 06 07 08 09 10 11 12 13 14 15 16 17 18 19 20; do
+  for i in ${PIDS:-01 02 03 04 05 06 07 08 09 10 11 12 13 14 15 16 17 18 19 20}; do
     out=$(VERIF_REPO=$M /verif/check C$i 2>&1); rc=$?
-    echo "$H $r C$i rc=$rc $(echo "$out" | grep -E 'VIOLATION|UNDECIDED' | head -2 | tr '\n' ' ' | cut -c1-300)"
+    echo "$H $r C$i rc=$rc $(echo "$out" | grep -E 'VIOLATION|UNDECIDED|failed obligation' | head -3 | tr '\n' ' ' | cut -c1-500)"
   done
-  rm -rf $M /verif/build/alt-* /verif/build/target-* /verif/build/replay_crate-[0-9a-f]*
+  T=$(python3 -c "import hashlib,os;print(hashlib.sha256(os.path.realpath('$M').encode()).hexdigest()[:10])")
+  rm -rf $M /verif/build/alt-$T /verif/build/target-$T /verif/build/replay_crate-$T /verif/build/bin/krp-replay-$T
 done
